@@ -160,6 +160,69 @@ static photospline::ndsparse *make_data(const Problem &p, const std::vector<size
 }
 static const double K_BOUND = 8.0;
 
+// ================================================================ C09big: tables with more than 2^16 coefficients (flattened matrix indices beyond 2^32)
+// The dense oracle is out of reach there; the normal-equation residual B'W(y - Bc) - sum_d lambda_d P_d c is applied matrix-free, dimension by dimension
+// (data on the full grid), in long double, together with the magnitude |B|'W(|y| + |B||c|) + sum_d lambda_d |P_d||c| that scales the bound.
+static void mode_apply(const std::vector<LD> &M, size_t rows, size_t cols, const std::vector<LD> &in, const std::vector<size_t> &dims, int d, std::vector<LD> &outv, std::vector<size_t> &odims) {
+	// out[..., r, ...] = sum_c M[r*cols + c] in[..., c, ...] along dimension d (dims[d] == cols)
+	odims = dims; odims[d] = rows; size_t inner = 1; for (size_t e = d + 1; e < dims.size(); e++) inner *= dims[e]; size_t outer = 1; for (int e = 0; e < d; e++) outer *= dims[e];
+	outv.assign(outer * rows * inner, 0);
+	for (size_t o = 0; o < outer; o++) for (size_t rr = 0; rr < rows; rr++) { LD *dst = &outv[(o * rows + rr) * inner]; for (size_t c = 0; c < cols; c++) { LD m = M[rr * cols + c]; if (m == 0) continue; const LD *src = &in[(o * cols + c) * inner]; for (size_t i = 0; i < inner; i++) dst[i] += m * src[i]; } }
+}
+static void run_C09big(const Args &a, long cs) {
+	Rng r(a.seed, "C09big", cs);
+	Problem p; p.nd = (cs % 3 == 2) ? 3 : 2; p.ntot = 1; p.kind = "large-grid";
+	// axis lengths: product just above 2^16, axes unequal
+	std::vector<int> nax = p.nd == 2 ? std::vector<int>{200 + (int)r.below(120), 0} : std::vector<int>{36 + (int)r.below(10), 38 + (int)r.below(8), 0};
+	{ size_t prod = 1; for (int d = 0; d + 1 < p.nd; d++) prod *= nax[d]; nax[p.nd - 1] = (int)((65536 + 200 + r.below(6000)) / prod) + 1; }
+	for (int d = 0; d < p.nd; d++) {
+		uint32_t o = (uint32_t)r.below(3); int n = nax[d]; int nk = n + o + 1;
+		std::vector<double> k(nk); double x = -1.0 + r.U(); for (int i = 0; i < nk; i++) { k[i] = x; x += 0.6 + 0.8 * r.U(); }
+		p.ord.push_back(o); p.kn.push_back(k); p.n.push_back(n); p.ntot *= (size_t)n; p.por.push_back((uint32_t)r.below(o + 1)); p.lam.push_back(r.coin(0.4) ? 0.0 : std::pow(10.0, (double)r.range(-4, 0)));
+		// abscissae: one per coefficient (Greville-like, jittered) plus a few more, all inside the knot range; unsorted
+		int np = n + 1 + (int)r.below(6); std::vector<double> c(np); double lo = k[0], hi = k[nk - 1];
+		for (int i = 0; i < np; i++) { double g = 0; if (i < n) { for (uint32_t j = 1; j <= std::max(1u, o); j++) g += k[i + j]; g /= std::max(1u, o); if (o == 0) g = 0.5 * (k[i] + k[i + 1]); g += 0.05 * (r.U() - 0.5); } else g = lo + (hi - lo) * r.U(); c[i] = std::min(std::max(g, lo + 1e-9), hi - 1e-9); }
+		for (int i = np - 1; i > 0; i--) std::swap(c[i], c[r.below(i + 1)]);
+		p.co.push_back(c);
+	}
+	count("large-problems"); count("large:ndim:" + std::to_string(p.nd)); count("large:coefficients", (long)p.ntot);
+	size_t npt = 1; std::vector<size_t> gd(p.nd), cd(p.nd); for (int d = 0; d < p.nd; d++) { gd[d] = p.co[d].size(); cd[d] = (size_t)p.n[d]; npt *= gd[d]; }
+	// data on the full grid
+	std::vector<LD> y(npt), w(npt); p.idx.reserve(npt); std::vector<unsigned> I(p.nd, 0);
+	for (size_t lin = 0; lin < npt; lin++) { size_t q = lin; for (int d = p.nd - 1; d >= 0; d--) { I[d] = (unsigned)(q % gd[d]); q /= gd[d]; } double v = 0; for (int d = 0; d < p.nd; d++) v += std::sin(0.05 * p.co[d][I[d]] * (d + 1)); v += 0.1 * r.U(); p.idx.push_back(I); p.y.push_back(v); double ww = 0.5 + 1.5 * r.U(); p.w.push_back(ww); y[lin] = v; w[lin] = ww; }
+	std::string pj = prob_brief(p); context(pj);
+	photospline::ndsparse *data = make_data(p);
+	Table T; bool ok = true; phase_log("fit (large table)");
+	try { T.fit(*data, p.w, p.co, p.ord, p.kn, p.lam, p.por, Table::no_monodim, false); } catch (std::exception &e) { ok = false; viol("C09:fit(large):threw-on-well-posed-problem", "{\"what\":" + jstr(e.what()) + ",\"problem\":" + pj + "}"); }
+	delete data;
+	if (!ok) return;
+	if (T.get_ncoeffs() != p.ntot) { viol("C09:fit(large):wrong-number-of-coefficients", pj); return; }
+	const float *cf = T.get_coefficients();
+	size_t nbad = 0; for (size_t i = 0; i < p.ntot; i++) if (!std::isfinite(cf[i])) nbad++;
+	if (nbad) { viol("C09:fit(large):non-finite-coefficients-on-well-posed-problem", "{\"non_finite\":" + std::to_string(nbad) + ",\"problem\":" + pj + "}"); return; }
+	phase_log("matrix-free normal-equation residual");
+	// per-dimension basis matrices (grid x coefficients) and their absolute values
+	std::vector<std::vector<LD>> B(p.nd), Bt(p.nd);
+	for (int d = 0; d < p.nd; d++) { B[d].assign(gd[d] * cd[d], 0); Bt[d].assign(cd[d] * gd[d], 0); for (size_t q = 0; q < gd[d]; q++) for (size_t i = 0; i < cd[d]; i++) { LD v = Bh(p.kn[d], (int)i, p.ord[d], p.co[d][q]); B[d][q * cd[d] + i] = v; Bt[d][i * gd[d] + q] = v; } }
+	std::vector<LD> c(p.ntot), ca(p.ntot); for (size_t i = 0; i < p.ntot; i++) { c[i] = cf[i]; ca[i] = fabsl(c[i]); }
+	auto chain = [&](const std::vector<std::vector<LD>> &Ms, const std::vector<size_t> &rows, const std::vector<size_t> &cols, std::vector<LD> v, std::vector<size_t> dims) { for (int d = 0; d < p.nd; d++) { std::vector<LD> o2; std::vector<size_t> od; mode_apply(Ms[d], rows[d], cols[d], v, dims, d, o2, od); v.swap(o2); dims = od; } return v; };
+	std::vector<LD> yh = chain(B, gd, cd, c, cd), yha = chain(B, gd, cd, ca, cd); // basis values are non-negative: |B| = B
+	std::vector<LD> res(npt), resa(npt); for (size_t i = 0; i < npt; i++) { res[i] = w[i] * (y[i] - yh[i]); resa[i] = w[i] * (fabsl(y[i]) + yha[i]); }
+	std::vector<LD> g = chain(Bt, cd, gd, res, gd), ga = chain(Bt, cd, gd, resa, gd);
+	for (int d = 0; d < p.nd; d++) {
+		if (p.lam[d] == 0 || p.por[d] > p.ord[d] || (int)p.por[d] >= p.n[d]) continue;
+		auto D = Dmat(p.kn[d], p.ord[d], p.por[d], p.n[d]); int rows = (int)D.size(); size_t nn = cd[d];
+		std::vector<LD> P(nn * nn, 0), Pa(nn * nn, 0); for (size_t x = 0; x < nn; x++) for (size_t z = 0; z < nn; z++) { LD sv = 0; for (int q = 0; q < rows; q++) sv += D[q][x] * D[q][z]; P[x * nn + z] = sv; Pa[x * nn + z] = fabsl(sv); }
+		std::vector<LD> t, ta; std::vector<size_t> od; mode_apply(P, nn, nn, c, cd, d, t, od); mode_apply(Pa, nn, nn, ca, cd, d, ta, od);
+		for (size_t i = 0; i < p.ntot; i++) { g[i] -= (LD)p.lam[d] * t[i]; ga[i] += (LD)p.lam[d] * ta[i]; }
+	}
+	double ratio = 0; size_t wi = 0; for (size_t i = 0; i < p.ntot; i++) if (ga[i] > 0) { double q = (double)(fabsl(g[i]) / (ldexpl(1, -24) * ga[i])); if (q > ratio) { ratio = q; wi = i; } }
+	count("large:residual-checks"); out().counters["max-large:backward-ratio-x1000"] = std::max(out().counters["max-large:backward-ratio-x1000"], (long)(ratio * 1000));
+	distinct(hash_mix(hash_mix(99, p.ntot), (uint64_t)(cf[p.ntot / 2] * 1e6)));
+	if (ratio > K_BOUND) viol("C09:fit(large):normal-equation-residual-above-bound", "{\"ratio\":" + jnum(ratio) + ",\"bound\":" + jnum(K_BOUND) + ",\"worst_coefficient\":" + std::to_string(wi) + ",\"problem\":" + pj + "}");
+	sample("{\"problem\":" + pj + ",\"backward_ratio\":" + jnum(ratio) + "}");
+}
+
 // ================================================================ C09
 static void run_C09(const Args &a, long cs) {
 	Rng r(a.seed, "C09", cs);
@@ -487,6 +550,7 @@ int main(int argc, char **argv) {
 	for (long cs = a.from; cs < a.to; cs++) {
 		begin_case(cs);
 		if (a.prop == "C09") run_C09(a, cs);
+		else if (a.prop == "C09big") run_C09big(a, cs);
 		else if (a.prop == "C10") run_C10(a, cs);
 		else if (a.prop == "C13") run_C13(a, cs);
 		else { fprintf(stderr, "unknown mode %s\n", a.prop.c_str()); return 2; }
